@@ -791,6 +791,28 @@ class Lowerer:
         k = n.get('kind')
         I = self.ind(d)
         if k == 'CompoundStmt':
+            keep = getattr(self.cur, 'keep_top', None) if top else None
+            if keep:
+                # region = the listed top-level statements of the function (kind, ordinal among that kind)
+                want = set((k2, o2) for k2, o2 in keep)
+                counts, parts, found = {}, [], set()
+                for c in n.get('inner', []):
+                    ck = c.get('kind')
+                    o = counts.get(ck, 0)
+                    counts[ck] = o + 1
+                    if (ck, o) in want:
+                        parts.append(self.stmt(c, d + 1))
+                        found.add((ck, o))
+                    else:
+                        self.note('region of %s: top-level %s #%d at %s not lowered' % (self.cur.cname, ck, o, where(c)))
+                if found != want:
+                    raise InfraError('contract no longer attached: region statements %s not found in %s' % (sorted(want - found), self.cur.cname))
+                for x in getattr(self.cur, 'export_locals', []):
+                    parts.append(self.ind(d + 1) + 'EXPORT_LOCAL(%s);\n' % x)
+                parts.append(self.ind(d + 1) + 'REGION_FALLTHROUGH;\n')
+                if self.cur.rett.kind != 'b' or self.cur.rett.name != 'void':
+                    parts.append(self.ind(d + 1) + '{ %s; return __region_ret; }\n' % self.cdecl(self.cur.rett.noref() if self.cur.rett.kind != 'ref' else Ty('ptr', to=self.cur.rett.to), '__region_ret'))
+                return '%s{\n%s%s}\n' % (self.ind(d - 1), ''.join(parts), self.ind(d - 1))
             trunc = getattr(self.cur, 'truncate_after', None) if top else None
             if trunc:
                 parts = []
@@ -1685,7 +1707,7 @@ class Lowerer:
         # copy / move construction = struct copy
         if len(args) == 1:
             at = self.ty(args[0]['type']).noref()
-            plist = split_top(sig[sig.find('(') + 1: sig.rfind(')')]) if '(' in sig else []
+            plist = split_top(param_text(sig)) if '(' in sig else []
             if at.kind == 'rec' and at.name == t.name and len(plist) == 1 and plist[0].rstrip().endswith('&'):
                 self.check_struct_copy(t, e)
                 return self.expr(args[0])
@@ -1695,6 +1717,15 @@ class Lowerer:
                 return '((%s){%s, %s})' % (self.cty(t), self.expr(args[0]), self.expr(args[1]))
             if not args:
                 return '((%s){0})' % self.cty(t)
+        skey = 'ctor:' + t.key.split('::')[-1].split('<')[0]
+        if skey in self.stubs:
+            st = self.stubs[skey]
+            cname = st['cname'] if isinstance(st, dict) else st
+            self.stubs_used.add(cname)
+            self.note('construction of %s (%s) replaced by assumed-contract stub %s at %s' % (t.key, sig, cname, where(e)))
+            if isinstance(st, dict) and st.get('args') == 'drop':
+                return '%s()' % cname
+            return '%s(%s)' % (cname, ', '.join(self.expr(a) for a in args))
         ctor = self.ctor_decl_of(e, t)
         if ctor is None:
             if not args:
@@ -1928,6 +1959,20 @@ class Lowerer:
         for f in self.fn_order:
             out.append(f.text)
         return '\n'.join(out) + '\n'
+
+
+def param_text(sig):
+    """text between the first '(' of a function type and its matching ')'"""
+    i = sig.find('(')
+    d = 0
+    for j in range(i, len(sig)):
+        if sig[j] == '(':
+            d += 1
+        elif sig[j] == ')':
+            d -= 1
+            if d == 0:
+                return sig[i + 1:j]
+    return sig[i + 1:]
 
 
 def balanced(s):
